@@ -1,4 +1,4 @@
-CONSTANTS H = 2 W = 2 FixMarks = TRUE FixWide = TRUE AllowAmbiguous = FALSE
+CONSTANTS H = 2 W = 2 FixMarks = TRUE FixWide = TRUE FixDamage = TRUE AllowAmbiguous = FALSE
 Alphabet <- AGlyph
 INIT Init
 NEXT Next
